@@ -1087,6 +1087,10 @@ impl Vm {
                 .expect("Expected ExcHandler.");
             (handler.finally_ip, handler.init_stack_size)
         };
+        // Variables declared inside the try block die here: close the ones closures captured.
+        if init_stack_size < self.stack_size() {
+            self.active_fiber_mut().close_upvalues(init_stack_size);
+        }
         self.active_fiber_mut().stack.truncate(init_stack_size);
         self.ip = new_ip;
     }
@@ -1541,6 +1545,12 @@ impl Vm {
             return Err(self.new_error_from_value(exc_object));
         };
 
+        // Everything above the handler's stack height dies (including whole frames): close the
+        // variables closures captured before the slots are reused.
+        if handler.init_stack_size < self.stack_size() {
+            self.active_fiber_mut()
+                .close_upvalues(handler.init_stack_size);
+        }
         self.active_fiber_mut()
             .stack
             .truncate(handler.init_stack_size);
